@@ -245,7 +245,7 @@ func (c *Ctx) checkMatcherShapes() {
 						al = u.X
 					}
 					sv, ev := structLitField(al, "suffix"), structLitField(al, "exact")
-					if sv != ssa.Value(trimP) || ev != ssa.Value(hasP) {
+					if sv != ssa.Value(trimP) || !boolIs(ev, hasP) {
 						good = false
 					}
 				}
